@@ -655,6 +655,8 @@ class Interp:
                 return lambda *ii: self._dx(obj, ii)
             if attr in obj.tags:
                 return obj.tags[attr]
+            if obj.tags.get("ufl_class") == "Variable" and attr in ("expression", "label") and len(obj.tags.get("ufl_operands", ())) == 2:
+                return lambda: obj.tags["ufl_operands"][0 if attr == "expression" else 1]
             raise Unsupported(f"attribute {attr} of a UFL value ({norm(node)})")
         if isinstance(obj, Obj) and obj.kind == "super":
             cur, slf = obj.attrs["_cls"], obj.attrs["_self"]
